@@ -517,6 +517,50 @@ func (nr *netRun) checkC11(x *xfer) {
 						}
 					}
 				}
+				if cause == "" && what == "responder-flag" && sb.RPaused && !sa.RPaused {
+					// F13: a voucher-result message carries the responder's pause flag as it was when the message was built; sent
+					// before the responder recorded its pause (e.g. the validator's ForcePause of the acceptance still in progress)
+					// and delivered - libp2p and graphsync are two carriers - after the message that announced the pause, it
+					// makes the initiator record ResumeResponder although nobody resumed
+					pB, pA := -1, -1
+					for _, e := range nr.B.EventsOf(x.chid) {
+						if e.Code == datatransfer.PauseResponder || e.Code == datatransfer.DataLimitExceeded {
+							pB = e.Step
+						}
+					}
+					for _, e := range nr.A.EventsOf(x.chid) {
+						if e.Code == datatransfer.PauseResponder && pA < 0 {
+							pA = e.Step // the first time the initiator heard of a pause
+						}
+					}
+					sentBefore, recvAfter := false, false
+					for _, w := range nr.B.Wire {
+						if w.Dir == "send" && !w.Sum.Req && w.Sum.Voucher && !w.Sum.Paused && w.Sum.TID == x.chid.ID && pB >= 0 && w.Step < pB {
+							sentBefore = true
+						}
+					}
+					for _, w := range nr.A.Wire {
+						if w.Dir == "recv" && !w.Sum.Req && w.Sum.Voucher && !w.Sum.Paused && w.Sum.TID == x.chid.ID && pA >= 0 && w.Step > pA {
+							recvAfter = true
+						}
+					}
+					// ... and that stale message is what made the initiator resume last
+					lastIsResume, lastStep := false, -1
+					for _, e := range nr.A.EventsOf(x.chid) {
+						if e.Code == datatransfer.PauseResponder || e.Code == datatransfer.ResumeResponder {
+							lastIsResume, lastStep = e.Code == datatransfer.ResumeResponder, e.Step
+						}
+					}
+					staleBeforeLast := false
+					for _, w := range nr.A.Wire {
+						if w.Dir == "recv" && !w.Sum.Req && w.Sum.Voucher && !w.Sum.Paused && w.Sum.TID == x.chid.ID && pA >= 0 && w.Step > pA && w.Step <= lastStep {
+							staleBeforeLast = true
+						}
+					}
+					if sentBefore && recvAfter && lastIsResume && staleBeforeLast {
+						cause = "|stale-pause-flag-of-a-voucher-result-overtaken-by-the-pause-announcement"
+					}
+				}
 				r.Failf("C11", "pause-views-disagree", what+cause, "channel #%d at quiescence (fault-free, both Ongoing): A sees (init=%v,resp=%v), B sees (init=%v,resp=%v)", x.idx, sa.IPaused, sa.RPaused, sb.IPaused, sb.RPaused)
 			}
 		}
